@@ -958,6 +958,8 @@ def rule_division_guards(chk, prog, tier):
     r = chk.rule('C19.u', 'no host division or remainder in the compiler can have a zero divisor: the divisor is a non-zero constant, is tested for being non-zero by a conjunct to its left in the same condition, '
                  'or is one of the reviewed divisors that cannot be zero by construction; an arithmetic trap (SIGFPE) is not one of the ways the compiler may end', floor=12)
     from props.c10 import expr_text
+    import cfg as _cfg
+    graphs_ = _cfg.cfgs(prog)[1]
     nconst = 0; n = 0
     seen_reviewed = set(); unknown = []
     for fn in prog.all_funcs():
@@ -982,6 +984,26 @@ def rule_division_guards(chk, prog, tier):
                     if expr_text(children(b)[1]) in known: guarded.add(id(b))
         for b in walk(fn):
             if b.get('kind') == 'BinaryOperator' and b.get('opcode') == '&&': conj(b, set())
+        # ... or by a branch: the division is dominated by the true successor of a condition that tests the divisor (`if (b && ...) x / b`)
+        g_ = graphs_.get(fn['id'])
+        if g_ is not None:
+            dom = None
+            for node in g_.nodes:
+                if node.ast is None: continue
+                divs = [b for b in walk(node.ast) if b.get('kind') in ('BinaryOperator', 'CompoundAssignOperator') and b.get('opcode') in ('/', '%', '/=', '%=') and id(b) not in guarded]
+                if not divs: continue
+                if dom is None: dom = g_.dominators()
+                if node.id not in dom: continue
+                for c_ in g_.nodes:
+                    if c_.kind != 'cond' or c_.ast is None or c_.id not in dom[node.id] or c_.id == node.id: continue
+                    tsucc = [m for m, lab in c_.succ if lab is True]
+                    if not tsucc or tsucc[0].id not in dom[node.id] and tsucc[0].id != node.id: continue
+                    if len(tsucc[0].pred) != 1: continue
+                    t = expr_text(c_.ast); known = {t}
+                    m = re.match(r'^\((.*) (>|!=) 0\)$', t)
+                    if m: known.add(m.group(1))
+                    for b in divs:
+                        if expr_text(children(b)[1]) in known: guarded.add(id(b))
         for b in walk(fn):
             if b.get('kind') not in ('BinaryOperator', 'CompoundAssignOperator') or b.get('opcode') not in ('/', '%', '/=', '%='): continue
             d = unwrap_all(children(b)[1])
